@@ -180,7 +180,12 @@ func inlineFilterRefs(r Getter, val Object) (Native, error) {
 
 // CopyArray copies an array from the source file to the target file.
 func (c *Copier) CopyArray(obj Array) (Array, error) {
-	var res Array
+	if obj == nil {
+		return nil, nil
+	}
+	// The result must not be nil for an empty array: a nil Array is written
+	// as null.
+	res := make(Array, 0, len(obj))
 	for _, val := range obj {
 		var repl Native
 		if val != nil {
